@@ -14,8 +14,9 @@ Tr == ndJsonDeserialize(IOEnv.TRACE)
 NT == Tr[1].nt
 Thr == {ToString(i) : i \in 0..(NT - 1)}      \* thread ids as strings ("null" = no owner)
 
-VARIABLES l, st, known, drift
-tvars == <<l, st, known, drift>>
+VARIABLES l, st, known, drift,
+          mustDirty    \* threads that made the item list non-empty in _dispatch_lane_push and have not woken the queue yet
+tvars == <<l, st, known, drift, mustDirty>>
 
 Rec == Tr[l]
 BOOL == {TRUE, FALSE}
@@ -105,32 +106,45 @@ KnownFuncs == {"_dispatch_queue_drain_try_lock", "_dispatch_queue_drain_try_unlo
   "_dispatch_barrier_trysync_or_async_f_complete", "_dispatch_lane_try_inactive_suspend", "_dispatch_lane_inherit_wlh_from_target"}
 AllAllowed(op, old, t) == UNION {Allowed(f, op, old, t) : f \in KnownFuncs}
 
-TInit == l = 2 /\ st = Idle0 /\ known = TRUE /\ drift = 0 /\ TLCSet(1, 0)
+TInit == l = 2 /\ st = Idle0 /\ known = TRUE /\ drift = 0 /\ mustDirty = {} /\ TLCSet(1, 0)
 
 Consume == l' = l + 1
 IsSt == l <= Len(Tr) /\ Rec.e = "St"
 
 TReset == /\ l <= Len(Tr) /\ Rec.e = "Reset" /\ Consume
           /\ st' = IF Rec.inactive THEN InactiveInit ELSE Idle0
-          /\ known' = TRUE /\ drift' = drift
+          /\ known' = TRUE /\ drift' = drift /\ mustDirty' = {}
 \* at the end of an execution, after the flushing barrier returned, the word is idle again
 TQuiesce == /\ l <= Len(Tr) /\ Rec.e = "Quiesce" /\ Consume
             /\ [st EXCEPT !.qos = 0, !.dirty = FALSE, !.ro = FALSE, !.enq = FALSE] = Idle0
-            /\ UNCHANGED <<st, known, drift>>
-TOther == /\ l <= Len(Tr) /\ Rec.e \notin {"St", "Reset", "Quiesce"} /\ Consume /\ UNCHANGED <<st, known, drift>>
+            /\ UNCHANGED <<st, known, drift, mustDirty>>
+\* the exchange of dq_items_tail: a first enqueuer coming through _dispatch_lane_push owes the queue a wakeup with
+\* MAKE_DIRTY (this is what makes a concurrent drainer's unlock fail and look at the list again)
+TTail == /\ l <= Len(Tr) /\ Rec.e = "Tail" /\ Consume
+         /\ mustDirty' = IF Rec.f = "_dispatch_lane_push" /\ Rec.first THEN mustDirty \cup {Rec.t} ELSE mustDirty \ {Rec.t}
+         /\ UNCHANGED <<st, known, drift>>
+\* any API-level event of the thread ends the obligation window (the wakeup may legitimately be skipped when the
+\* list was emptied by a drainer before the enqueuer probed it)
+TOther == /\ l <= Len(Tr) /\ Rec.e \notin {"St", "Reset", "Quiesce", "Tail"} /\ Consume
+          /\ mustDirty' = IF "t" \in DOMAIN Rec THEN mustDirty \ {Rec.t} ELSE mustDirty
+          /\ UNCHANGED <<st, known, drift>>
 
 \* a record of an access to one half of the word, or one whose word has bits the abstraction does not carry
 Opaque == Rec.op = "half" \/ "odd_old" \in DOMAIN Rec \/ "odd_new" \in DOMAIN Rec
-TStOpaque == /\ IsSt /\ Opaque /\ Consume /\ known' = FALSE /\ UNCHANGED <<st, drift>>
+TStOpaque == /\ IsSt /\ Opaque /\ Consume /\ known' = FALSE /\ UNCHANGED <<st, drift, mustDirty>>
 
 TSt == /\ IsSt /\ ~Opaque /\ Consume
        /\ LET old == Strip(Rec.old) new == Strip(Rec.new) base == Rec.base_old IN
           IF Rec.op = "giveup"
           THEN \* the loop left the word alone: that must be a decision the operator also takes on the value it observed
-               /\ GiveUpOk(Rec.f, old, ToString(Rec.t)) /\ UNCHANGED <<st, known, drift>>
+               /\ GiveUpOk(Rec.f, old, ToString(Rec.t)) /\ UNCHANGED <<st, known, drift, mustDirty>>
+               /\ ~(Rec.f = "_dispatch_queue_wakeup" /\ Rec.t \in mustDirty)      \* a MAKE_DIRTY wakeup never gives up
           ELSE
           /\ (known => old = st)                          \* values chain: every access observes what the previous one left
           /\ st' = new /\ known' = TRUE
+          /\ IF Rec.f = "_dispatch_queue_wakeup" /\ Rec.op = "cmpxchg" /\ Rec.ok = 1 /\ Rec.t \in mustDirty
+             THEN new.dirty /\ mustDirty' = mustDirty \ {Rec.t}
+             ELSE mustDirty' = mustDirty
           /\ CASE Rec.op = "load" -> new = old /\ drift' = drift
                [] Rec.op = "cmpxchg" /\ Rec.ok = 0 -> new = old /\ drift' = drift
                [] OTHER ->
@@ -138,10 +152,10 @@ TSt == /\ IsSt /\ ~Opaque /\ Consume
                     THEN (\E x \in Allowed(Rec.f, Rec.op, old, ToString(Rec.t)) : Eq(x, new, base)) /\ drift' = drift
                     ELSE (\E x \in AllAllowed(Rec.op, old, ToString(Rec.t)) : Eq(x, new, base)) /\ drift' = drift + 1   \* moved/renamed code
 \* giveup records carry no value: they are projected with the word the loop last observed
-TNext == TReset \/ TQuiesce \/ TOther \/ TStOpaque \/ TSt
+TNext == TReset \/ TQuiesce \/ TOther \/ TTail \/ TStOpaque \/ TSt
 TSpec == TInit /\ [][TNext]_tvars
 
-WordOK == st.used >= 0 /\ st.used < 4096 /\ (st.pb => W > 1) /\ st.sc >= 0 /\ st.sc <= SCMAX
+WordOK == st.used >= 0 /\ st.used < 4096 + W /\ (st.pb => W > 1) /\ st.sc >= 0 /\ st.sc <= SCMAX
 MaxL == IF TLCGet(1) < l THEN TLCSet(1, l) ELSE TRUE
 Accepted == l > Len(Tr)
 StopWhenAccepted == Accepted => (PrintT("TRACE_ACCEPTED") /\ PrintT(<<"DRIFT", drift>>) /\ TLCSet("exit", TRUE))
